@@ -58,13 +58,13 @@ CHECKS = {
                 ref='DESIGN.md §3.4, §4 C17', category='model_checking',
                 note='Partial claim (see text). Trusted base: rustc nightly MIR (-Zunpretty=mir), the call whitelist and the environment assumption in vk/e4.py (ASCII, attribute text <= 48 bytes), z3 4.8.12 and cvc5 1.0 (both must agree); every model is confirmed by compiling the attribute with the real proc macro.'),
     'C18': dict(engine='E3-cfg-sat', technique='SAT (z3, cvc5 cross-check) over the cfg(feature) structure extracted from the sources, all 4096 subsets symbolic, models replayed with cargo check; Kani/CBMC on a stated list of subsets for behaviour',
-                text='tools/cfgscan extracts the module tree, definitions, use leaves and every path with its cfg stack from the current sources; z3 decides for every (reference, target), every cfg-gated let, every Trait variant / lookup arm / dispatch gate and the compile_error! guard that no feature subset compiles a reference without its target (the subset is the SAT variable); each model is confirmed by a real cargo check -D warnings of that subset. Behavioural equality with the full build is discharged by the E1 harnesses of the enabled traits under 5 (quick) / ~33 (thorough) stated subsets.',
+                text='tools/cfgscan extracts the module tree, definitions, use leaves and every path with its cfg stack from the current sources; z3 decides for every (reference, target), every cfg-gated let, every Trait variant / lookup arm / dispatch gate, the compile_error! guard, every binding / import / private item (unused-variable, unused-import, dead-code lints) and every diagnostic of the shared entry point (a rejection must not exist only under some subsets) that no feature subset compiles a reference without its target (the subset is the SAT variable); each model is confirmed by a real cargo check -D warnings of that subset, or for a rejection by building the same derive input under that subset and under all features. Behavioural equality with the full build is discharged by the E1 harnesses of the enabled traits under 5 (quick) / ~33 (thorough) stated subsets.',
                 ref='DESIGN.md §3.3, §4 C18', category='model_checking',
                 note='Trusted base: the reference model of the crate built by tools/cfgscan (names it cannot see are unconstrained: a miss, never an alarm), z3/cvc5, cargo check for confirmation and for a validation sample of subsets on each run; the behavioural half covers the stated subsets only.'),
     'C19': dict(engine='E1-kani', technique='bounded model checking (Kani/CBMC, CaDiCaL) of the C02..C10 harnesses re-instantiated in hostile naming contexts',
-                text='User identifiers harvested on each run from the quote!/format_ident! templates of /repo/src are used as field, variant and parameter names, and the derive site is placed in a module shadowing Option/Some/None/Result/Ok/Err/Ordering/Clone/Default/Debug/core/std/...; CBMC decides behaviour still equals the oracle for all values in each context. A context that does not compile is surfaced as a compiler verdict (not a solver obligation).',
+                text='User identifiers harvested on each run from the quote!/format_ident! templates of /repo/src are used as field, variant and parameter names, and the derive site is placed in a module shadowing Option/Some/None/Result/Ok/Err/Ordering/Clone/Default/Debug/core/std/... (also: inherent methods named like the trait methods, raw-identifier field names, custom methods imported under the names of generated locals, user macros named like the std macros used); CBMC decides behaviour still equals the oracle for all values in each context. A context that does not compile is surfaced as a compiler verdict (not a solver obligation).',
                 ref='DESIGN.md §4 C19',
-                note=E1_NOTE + ' Compile verdicts of hostile contexts are rustc\'s; #![no_std] at crate level is not exercised (only the `std` module name is shadowed). One open known finding (type parameter named like the generated hasher generic).'),
+                note=E1_NOTE + ' Compile verdicts of hostile contexts are rustc\'s; #![no_std] is emulated by renaming `std` at the harness crate root (`extern crate educe as std;`), so any `::std::` path of generated code fails to resolve. Two open known findings (type parameter named like the generated hasher generic; custom method path named like a generated parameter / local).'),
     'C20': dict(engine='E1-kani', technique='bounded model checking (Kani/CBMC, CaDiCaL) of the generated union eq/hash/clone/default/fmt over arbitrary bytes',
                 text='For every union layout in the grammar (sizes 1..8, alignments 1..8, with and without padding, one generic) CBMC decides for every byte pattern that == is equality of the size_of::<Self>() bytes, hash feeds exactly those bytes as one slice, clone is a bitwise copy, default initialises the designated field from its own source; Debug equals debug_tuple(name).field(&bytes) / Debug::fmt(bytes) on fixed byte patterns in both modes and on arbitrary bytes for size 1.',
                 ref='DESIGN.md §4 C20',
